@@ -8,7 +8,7 @@ from ..impl_dwt import T, N as NP
 
 PROP = 'C15'
 MODULE = 'WaveletsVerif.Properties.C15'
-THEOREMS = ['WV.C15.inv_init', 'WV.C15.load_spec', 'WV.C15.run_spec', 'WV.C15.tstep_ok', 'WV.C15.sched_ok', 'WV.C18Z.miss_steps', 'WV.C18Z.loader_program_gen', 'WV.C10Z.forward_keeps_no_state_gen']
+THEOREMS = ['WV.C15.inv_init', 'WV.C15.load_spec', 'WV.C15.run_spec', 'WV.C15.tstep_ok', 'WV.C15.sched_ok', 'WV.C18Z.miss_steps', 'WV.C18Z.loader_program_gen', 'WV.C10Z.forward_keeps_no_state_gen', 'WV.C10Z.writes_into_parameters_gen']
 
 
 # ---------------------------------------------------------------------------
